@@ -45,6 +45,7 @@ META = {
 
 def run(rep):
     order = writer_schema(rep)
+    rep.run(fresh_results)
     rep.run(reader_schema, order)
     rep.run(writer_sides)
     rep.run(reader_edges)
@@ -73,6 +74,35 @@ def writer_schema(rep):
     # default inside construct
     dv_ = param_default(cons.node, "node_attrs")
     cl = list_literal_strs(dv_) if dv_ is not None else None
+    if cl is None and dv_ is not None:
+        # a computed default (e.g. derived from a class-level table): evaluate it over the module's / class's constant tables
+        from ..absval import eval_expr as _ev, module_constants as _mc
+        env = dict(_mc(cons.module.tree))
+        if cons.cls is not None:
+            for st in cons.cls.body:
+                tg = st.targets[0] if isinstance(st, ast.Assign) and len(st.targets) == 1 else (st.target if isinstance(st, ast.AnnAssign) and st.value is not None else None)
+                if isinstance(tg, ast.Name):
+                    try:
+                        try:
+                            val = _ev(st.value, {})
+                        except Undecided:
+                            # a table whose values are not all evaluable (a lambda default): its KEYS and their order are what matters here
+                            if isinstance(st.value, ast.Dict) and all(isinstance(k_, ast.Constant) for k_ in st.value.keys):
+                                val = {k_.value: "<opaque>" for k_ in st.value.keys}
+                            else:
+                                raise
+                        env[tg.id] = val
+                        env[f"{cons.cls.name}.{tg.id}"] = val
+                        env[f"self.{tg.id}"] = val
+                        env[f"cls.{tg.id}"] = val
+                    except Undecided:
+                        pass
+        try:
+            got = _ev(dv_, env)
+            if isinstance(got, (list, tuple)) and all(isinstance(x, str) for x in got):
+                cl = list(got)
+        except (Undecided, TypeError):
+            pass
     if cl is None:
         rep.ob("O1.1", "R3a", cons, None, "node_attrs default", "cannot find the default typesGH attribute order in construct")
         raise AnalysisError("typesGH writer order not found")
@@ -95,6 +125,22 @@ def writer_schema(rep):
     rep.ob("O1.3", "R3b", wrap, fwd is not None and norm(fwd) == "ignore_aromaticity", calls[0].func,
            "ITSGraph forwards ignore_aromaticity unchanged")
     return wl
+
+
+def fresh_results(rep):
+    """the two graphs its_decompose returns are built for this call: its_to_rsmi hands them to routines that fold hydrogens into them in place, so a
+    pair served from a process-wide store (a memo keyed by the ITS object) comes back modified on the next call"""
+    from ..rules import provenance as PV
+    fi = rep.f(ITSD, "its_decompose")
+    d = local_defs(fi.node)
+    rets = [r for r in returns_of(fi.node) if r.value is not None]
+    rep.need("R9", len(rets), 1, "returns of its_decompose")
+    lk = PV.persistent_lookups(fi, [x for r in rets for x in PV.all_roots(d, r.value, through_copies=False)], d)
+    for r, cont, key in lk:
+        rep.ob("O1.5", "R9", fi, False, r, f"the reactant / product graphs are built in this call (here they are taken out of `{cont}` and handed out without a copy: "
+               "a caller that edits them changes every later decomposition of the same ITS)", node=r)
+    if not lk:
+        rep.ob("O1.5", "R9", fi, True, f"{len(rets)} return(s)", "the reactant / product graphs are built in this call")
 
 
 def _graphs_returned(fi):
